@@ -144,7 +144,14 @@ func runMem(c Case, tr *Tracer) {
 			emit(Ev{"ev": "ScribbleResult", "r": id}, "ScribbleResult")
 		case 2, 3: // decode from a caller buffer, then scribble over that buffer
 			tn := typeNames[rr.Intn(len(typeNames))]
+			if rr.Intn(3) == 0 { // the PDUs with lists, bodies and optional parameters come up more often
+				tn = richTypes()[rr.Intn(len(richTypes()))]
+			}
 			a := defaultAssign(rr, tn, true)
+			if tf := tailField(tn); tf != "" && rr.Intn(2) == 0 {
+				// binary optional parameters (sar_* and the like)
+				a[tf] = fval{tlvs: []tlvVal{{0x020c, []byte{0, byte(rr.Intn(256))}}, {0x020e, []byte{byte(rr.Intn(32))}}, {5 + rr.Intn(3), randBytes(rr, 1+rr.Intn(6))}}}
+			}
 			img, err := build(tn, a).IEncode()
 			if err != nil {
 				continue
@@ -154,7 +161,15 @@ func runMem(c Case, tr *Tracer) {
 			nextIn++
 			emit(Ev{"ev": "NewInput", "i": iid}, "NewInput")
 			p := ctors[tn]()
-			if p.IDecode(in) != nil {
+			if tn != "cmpp.SubPduDeliveryContent" && rr.Intn(2) == 0 {
+				// through the package's dispatcher: every decoded PDU is an object of its own
+				dt, dp := dispatchName(tn[:6], in)
+				cp, ok := dp.(codecPDU)
+				if dt != tn || !ok {
+					continue
+				}
+				p = cp
+			} else if p.IDecode(in) != nil {
 				continue
 			}
 			refp := ctors[tn]()
@@ -612,6 +627,27 @@ func hasListField(tn string) bool {
 		}
 	}
 	return false
+}
+
+var richTypesCache []string
+
+// richTypes: PDU types with a destination list, a message body or optional parameters, and the header-only ones
+func richTypes() []string {
+	if richTypesCache == nil {
+		for _, tn := range typeNames {
+			n := 0
+			for _, f := range layouts[tn].Fields {
+				if f.K == "L" || f.K == "B" || f.K == "T" || f.K == "O" {
+					n = 100
+				}
+				n++
+			}
+			if n >= 100 || n <= 3 {
+				richTypesCache = append(richTypesCache, tn)
+			}
+		}
+	}
+	return richTypesCache
 }
 
 var listTypesCache []string
